@@ -17,6 +17,19 @@ CHECKS = {
              "Overlap.construct_array_contraction of /repo on every run. The 1e-8 accuracy clause is decided on the "
              "generated inputs only.",
         design="5 C01", technique="Coq proof (induction over the recursion) + model/implementation correspondence"),
+    "C09": dict(
+        text="Coq theorems (any number of shells, block shapes, cart/sph assignment and rectangular T, by induction "
+             "over lists, generic module of entries): the one-, two- (symmetric and asymmetric) and four-index "
+             "assembly models equal the all-Cartesian assembly with the block-diagonal (+)T_s applied to every basis "
+             "index; the cartesian/spherical/mix code paths agree; lincomb = T applied index-wise; a permuted/signed "
+             "component convention permutes/signs the output (per block; the four-index full-tensor statement is "
+             "partial, see Props/C09.v). The Gallina models are run (extracted OCaml) on LABELLED INTEGER blocks "
+             "against subclasses of the four gbasis base classes with a stubbed integer transform for every type "
+             "assignment of 1-4 shells (integer equality), and the metamorphic laws are checked numerically (1e-9 "
+             "relative) through eleven public functions with/without transform= and with custom-convention shell "
+             "subclasses.",
+        design="5 C09", technique="Coq proof (list induction, block-sum lemma) + exact labelled-block correspondence "
+                                    "+ metamorphic numeric checks"),
 }
 NOT_YET = {}
 
